@@ -162,14 +162,16 @@ class Isa(object):
             bs = bs[::-1]
         return bs
 
-    def gen_bytes(self, rnd, mode, endian, tail=True):
+    def gen_bytes(self, rnd, mode, endian, tail=True, index=None):
         """spec-guided byte string (mostly decodable), mixed with random
-        strings, truncations and bit flips. All randomness comes from rnd."""
+        strings, truncations and bit flips. All randomness comes from rnd.
+        With `index` the spec is chosen systematically (index modulo the number of
+        specs) so that a campaign of k*len(specs) cases reaches every spec k times."""
         S = self.specs[mode]
         k = rnd.random()
-        if k < 0.08:
+        if k < 0.08 and index is None:
             return bytes(rnd.getrandbits(8) for _ in range(rnd.randrange(0, self.d.maxlen + 9)))
-        s = S[rnd.randrange(len(S))]
+        s = S[rnd.randrange(len(S))] if index is None else S[index % len(S)]
         b = self.word_bytes(s, rnd, endian)
         pfx = b""
         if s.pfx is True:
@@ -192,7 +194,7 @@ class Isa(object):
             else:
                 t = bytes(rnd.getrandbits(8) for _ in range(n))
             b = b + t
-        if self.is_x86 and rnd.random() < 0.35:
+        if self.is_x86 and rnd.random() < 0.45:
             n = rnd.randrange(1, 4)
             pool = X86_PREFIXES + (REX if self.is_x64 else [])
             pfx = bytes(pool[rnd.randrange(len(pool))] for _ in range(n))
